@@ -437,7 +437,7 @@ func runC18(c *core.Ctx) {
 					}
 					c.Class("key_id_type1")
 					st, err := type1.NewBasicPrivateClient().CreateTokenRequest(r.Bytes(8), r.Bytes(32), iss.TokenKeyID(), iss.TokenKey())
-					if err != nil || st.Request().TokenKeyID != id[31] || st.Request().Marshal()[2] != id[31] {
+					if err != nil || st.Request().TokenKeyID != id[31] || st.Request().Marshal()[2] != id[31] || st.Request().TruncatedTokenKeyID() != id[31] || st.Request().Type() != 1 {
 						c.Violation("truncated-keyid:type1", "a type-1 request does not carry the last byte of the key id", d)
 						return
 					}
@@ -450,7 +450,7 @@ func runC18(c *core.Ctx) {
 					}
 					c.Class("key_id_type5")
 					st, err := type5.NewBatchedPrivateClient().CreateTokenRequest(r.Bytes(8), [][]byte{r.Bytes(32)}, iss.TokenKeyID(), iss.TokenKey())
-					if err != nil || st.Request().TokenKeyID != id[31] || st.Request().Marshal()[2] != id[31] {
+					if err != nil || st.Request().TokenKeyID != id[31] || st.Request().Marshal()[2] != id[31] || st.Request().TruncatedTokenKeyID() != id[31] || st.Request().Type() != 5 || iss.Type() != 5 {
 						c.Violation("truncated-keyid:type5", "a type-5 request does not carry the last byte of the key id", d)
 						return
 					}
@@ -470,7 +470,7 @@ func runC18(c *core.Ctx) {
 			c.Class("key_id_type2")
 			if id[0] != id[31] {
 				st, err := type2.NewBasicPublicClient().CreateTokenRequest(r.Bytes(8), r.Bytes(32), iss2.TokenKeyID(), iss2.TokenKey())
-				if err != nil || st.Request().TokenKeyID != id[31] || st.Request().Marshal()[2] != id[31] {
+				if err != nil || st.Request().TokenKeyID != id[31] || st.Request().Marshal()[2] != id[31] || st.Request().TruncatedTokenKeyID() != id[31] || st.Request().Type() != 2 {
 					c.Violation("truncated-keyid:type2", "a type-2 request does not carry the last byte of the key id", d)
 					return
 				}
